@@ -139,8 +139,6 @@ func runOne(t *testing.T, plan *Plan, dec *core.Decider, eng *Engine) (res *RunR
 		}
 	}()
 	synctest.Test(t, func(t *testing.T) {
-		core.SchedulerRaceOff()
-		defer core.SchedulerRaceOn()
 		res = eng.Run(plan, dec)
 	})
 	return res
